@@ -766,6 +766,28 @@ def generate(repo):
         # which classes define __array__ (only SparseArray may)
         over = [c for c in CLASSES if f"{c}.__array__" in world.funcs]
         out.append("Definition array_definers : list string := %s.\n" % coq_list(coq_str(c) for c in over))
+        # every function of the backend that mentions AUTO_DENSIFY (the switch must be read by __array__ only)
+        readers = []
+        for rel in sorted(os.listdir(os.path.join(repo, BACKEND))) + ["_coo/" + f for f in sorted(os.listdir(os.path.join(repo, BACKEND, "_coo")))] \
+                + ["_compressed/" + f for f in sorted(os.listdir(os.path.join(repo, BACKEND, "_compressed")))]:
+            if not rel.endswith(".py") or rel == "_settings.py":
+                continue
+            tree = ast.parse(open(os.path.join(repo, BACKEND, rel)).read())
+
+            def visit(node, qual):
+                for ch in ast.iter_child_nodes(node):
+                    if isinstance(ch, (ast.FunctionDef, ast.ClassDef)):
+                        visit(ch, qual + [ch.name])
+                    else:
+                        for n in ast.walk(ch):
+                            if (isinstance(n, ast.Name) and n.id == "AUTO_DENSIFY" and isinstance(n.ctx, ast.Load)) or \
+                                    (isinstance(n, ast.Attribute) and n.attr == "AUTO_DENSIFY"):
+                                nm = ".".join(qual) or rel
+                                if nm not in readers:
+                                    readers.append(nm)
+            visit(tree, [])
+        out.append("Definition auto_densify_readers : list string := %s.\n" % coq_list(coq_str(c) for c in readers))
+        report["sites"]["auto_densify_readers"] = readers
     except (SiteError, OSError, SyntaxError, KeyError) as ex:
         out.append(f"(* site table: EXTRACTION FAILED: {type(ex).__name__}: {ex} *)\n")
         report["sites"] = {"status": "failed", "error": f"{type(ex).__name__}: {ex}"}
